@@ -285,7 +285,9 @@ pub fn record_one(b: &mut Batch, r: &mut StdRng, p: &Profile, modes: &[RealMode]
     b.events.push(json!({"op": "reset", "trace": trace_id}));
 
     // build (through the public API, real syntax)
-    let sm = crate::parse::to_scanner_modes(modes);
+    // mode names concretised (ttmap::conc_name): what mode_name reports is mapped back in exec.rs
+    let renamed: Vec<_> = modes.iter().map(|m| { let mut x = m.clone(); x.name = crate::ttmap::conc_name(&x.name); x }).collect();
+    let sm = crate::parse::to_scanner_modes(&renamed);
     let cached = r.gen_bool(if p.max_modes > 1 { 0.7 } else { 0.3 });
     let built = std::panic::catch_unwind(std::panic::AssertUnwindSafe(|| {
         crate::parse::build_via(&sm, cached)
